@@ -256,7 +256,7 @@ def run_jax_variants(case, checkers=("beartype", "typeguard"), seed=0, prime=Non
                     fn(*[_JZ.setdefault(tuple(s), jnp.zeros(tuple(s), jnp.float32)) for s in prime["shapes"]])
                 except Exception:
                     pass
-            v = classify(fn, vals(kind), {}, "verdict")
+            v = classify(fn, vals(kind), {}, "exact")
             v["desc"] = f"{ck}/eager/values{kind}" + ("/after-sibling" if (kind == 0 and prime is not None) else "")
             variants.append(v)
         a = vals(1)
@@ -274,7 +274,7 @@ def run_jax_variants(case, checkers=("beartype", "typeguard"), seed=0, prime=Non
                 jnp.stack([a[0], a[0]]), *a[1:]),
         }
         for name, thunk in trans.items():
-            v = classify(lambda: thunk(), [], {}, "verdict")
+            v = classify(lambda: thunk(), [], {}, "exact")
             v["desc"] = f"{ck}/{name}"
             variants.append(v)
     return variants
